@@ -15,13 +15,17 @@ import os, shutil, tempfile
 from fractions import Fraction as F
 import common, translate, lpdump, gencheck, gencheck_enc, e1misc
 
-PROOFS = {"encode_msc": "EncMscSpec.v", "encode_mef": "EncMefSpec.v", "encode_mef_obj": "EncMefObjSpec.v"}
+PROOFS = {"encode_msc": "EncMscSpec.v", "encode_mef": "EncMefSpec.v", "encode_mef_obj": "EncMefObjSpec.v",
+          "encode_mgs_sym": "EncMgsSymSpec.v", "encode_mgs_part": "EncMgsPartSpec.v", "encode_mgs": "EncMgsSpec.v"}
+HELPERS = {"binprod": "BinProdSpec.v", "intprod": "IntProdSpec.v"}
 FAMILIES = {
-    "c15": dict(targets=["encode_msc"], transfer="EncMscTransfer.v", what="the transfer theorems (gen_msc_exact, gen_msc_no_model)"),
-    "c16": dict(targets=["encode_mef", "encode_mef_obj"], transfer="EncMefTransfer.v", what="the transfer theorems (gen_mef_lp, gen_mef_exact)"),
+    "c15": dict(targets=["encode_msc", "encode_mgs_sym", "encode_mgs_part", "encode_mgs"], helpers=["binprod", "intprod"], transfer=["EncMscTransfer.v", "EncMgsTransfer.v"],
+                what="the transfer theorems (gen_msc_exact, gen_msc_no_model, gen_mgs_lp, gen_mgs_gives_generating_multiset, gen_mgs_feasible_iff)"),
+    "c16": dict(targets=["encode_mef", "encode_mef_obj"], transfer=["EncMefTransfer.v"], what="the transfer theorems (gen_mef_lp, gen_mef_exact)"),
 }
 STATEMENT = {
     "encode_msc": "_encode_set_cover adds exactly one binary variable per subset, one row 'sum of the subsets containing the element >= 1' per universe element, and minimises sum_i weight_i * subset_i (IndexError when a weight is missing)",
+    "encode_mgs": "_create_solver(k) (max_multiplicity == 1) adds exactly the gen_set / x / pi variables, the row sum_i gen_i == total, per number j the four product rows of every i and sum_i pi(i,j) == numbers[j], the symmetry rows gen_i <= gen_(i+1) for i < k-2, and with partition_constraints the y / product_y variables, their product rows, 'every generator in exactly one part' and the part sums",
     "encode_mef": "_encode_flow adds exactly the corrected-flow and error variables (bounds 0..ub), flow conservation at every node with in- and out-edges, err == 0 on ignored edges and f - x <= err, x - f <= err on the others (ValueError for a non-ignored edge without the attribute)",
     "encode_mef_obj": "_encode_min_sum_errors_objective minimises the sum of error_scaling.get(e, 1) * err(e) over the non-ignored edges plus, for sparsity_lambda > 0, lambda times the corrected flow out of the source",
 }
@@ -49,6 +53,19 @@ def msc_cases(ctx, n, stream):
     return out
 
 
+def mgs_cases(ctx, n, stream):
+    import gen2
+    from engines import c15
+    out = []
+    for i in range(n):
+        rng = ctx.rng(stream, i)
+        kw, scale = gen2.rand_mgs(rng)
+        c = Case("mgs", kw, c15.describe(kw)); c.k = rng.choice([1, 2, 2, 3, 3, 4])
+        c.desc = dict(c.desc, k=c.k)
+        out.append(c)
+    return out
+
+
 def mef_cases(ctx, n, stream):
     import gen2
     from engines import c16
@@ -72,6 +89,8 @@ def build(case):
     lpdump.install(); lpdump.reset()
     if case.kind == "msc":
         case.m = fp.MinSetCover(solver_options=dict(SO), **case.kw)
+    elif case.kind == "mgs":
+        case.m = fp.MinGenSet(solver_options=dict(SO), **case.kw)
     else:
         case.m = m = fp.MinErrorFlow(solver_options=dict(SO), **case.kw)
         case.ids = e1misc.mef_ids(case.m)
@@ -92,6 +111,10 @@ def real(name, case):
             d = lpdump.dump_impl(m.solver, e1misc.colkey_msc(m.solver))
             return {"exc": None, "cols": d["cols"], "rows": sorted(d["rows"], key=repr), "obj": d["obj"], "sense": d["sense"]}
         m = case.m if case.m is not None else build(case)
+        if name == "encode_mgs":
+            lpdump.reset(); m._create_solver(case.k)
+            d = lpdump.dump_impl(m.solver, e1misc.colkey_mgs(m.solver))
+            return {"exc": None, "cols": d["cols"], "rows": sorted(d["rows"], key=repr)}
         ids = case.ids
         lpdump.reset(); m._create_solver()
         empty = {"cols": {}, "rows": []}
@@ -124,6 +147,11 @@ def fn_call(name, case):
         u, ss = e1misc.msc_intern(case.kw["universe"], case.kw["subsets"])
         args = [cL([cN(x) for x in u]), cL([cL([cN(x) for x in s]) for s in ss]), cL([cQ(w) for w in msc_weights(case.kw)])]
         return "(let r := fn %s in enc_emitted (fst (fst (fst r))) ++ [enc_obj (snd (fst (fst r)))])" % " ".join(args)
+    if name == "encode_mgs":
+        m = case.m
+        pc = "None" if m.partition_constraints is None else "(Some %s)" % cL([cL([cQ(x) for x in c]) for c in m.partition_constraints])
+        args = ["(%d)%%Z" % case.k, cQ(m.total), cL([cQ(x) for x in m.numbers]), "(%d)%%Z" % m.max_multiplicity, pc, "true" if m.weight_type == int else "false"]
+        return "enc_emitted (fst (fst (fst (fst (fst (fn %s))))))" % " ".join(args)
     m = case.m; ids = case.ids
     G = pygraph(m.G, ids, m.flow_attr)
     ign = cL([cE((ids[u], ids[v])) for (u, v) in m.edges_to_ignore if u in ids and v in ids])
@@ -144,6 +172,34 @@ def spec(name, case):
         rows = [nrow([((19, i), 1) for i in range(len(subsets)) if el in subsets[i]], ">=", 1) for el in kw["universe"]]
         ob = {(19, i): F(ws[i]) for i in range(len(subsets))}
         return {"exc": None, "cols": cols, "rows": sorted(rows, key=repr), "obj": {k: c for k, c in ob.items() if c != 0}, "sense": "min"}
+    if name == "encode_mgs":
+        m = case.m; k = case.k
+        if m.max_multiplicity != 1: return None          # the integer-product helper block: correspondence (and C12's statements), not restated here
+        isint = m.weight_type == int; T = F(m.total); nums = [F(x) for x in m.numbers]
+        cols = {}; rows = []
+        for i in range(k): cols[(15, i)] = (F(0), T, isint)
+        for i in range(k):
+            for j in range(len(nums)): cols[(16, i, j)] = (F(0), F(1), True); cols[(1, i, j)] = (F(0), T, isint)
+        rows.append(nrow([((15, i), 1) for i in range(k)], "==", T))
+        prod = lambda x, w, p_: [nrow([(p_, 1), (x, -T)], "<=", 0), nrow([(p_, 1)], ">=", 0), nrow([(p_, 1), (w, -1)], "<=", 0), nrow([(p_, 1), (w, -1), (x, -T)], ">=", -T)]
+        for j, a in enumerate(nums):
+            for i in range(k): rows += prod((16, i, j), (15, i), (1, i, j))
+            rows.append(nrow([((1, i, j), 1) for i in range(k)], "==", a))
+        for i in range(k - 2): rows.append(nrow([((15, i), 1), ((15, i + 1), -1)], "<=", 0))
+        pc = m.partition_constraints
+        if pc:
+            t = max(len(c) for c in pc)
+            if k > 0 and t == 0 and len(pc) > 0: return {"exc": "UnboundLocalError", "cols": {}, "rows": []}
+            for i in range(k):
+                for j in range(t):
+                    for c in range(len(pc)):
+                        cols[(30, i, j, c)] = (F(0), F(1), True); cols[(31, i, j, c)] = (F(0), T, isint)
+                        rows += prod((30, i, j, c), (15, i), (31, i, j, c))
+            for i in range(k):
+                for c in range(len(pc)): rows.append(nrow([((30, i, j, c), 1) for j in range(t)], "==", 1))
+            for c, con in enumerate(pc):
+                for j in range(len(con)): rows.append(nrow([((31, i, j, c), 1) for i in range(k)], "==", con[j]))
+        return {"exc": None, "cols": cols, "rows": sorted(rows, key=repr)}
     m = case.m; ids = case.ids; G = m.G
     X = lambda u, v: (16, ids[u], ids[v]); Er = lambda u, v: (5, ids[u], ids[v])
     if name == "encode_mef":
@@ -168,7 +224,7 @@ def spec(name, case):
 
 
 # ------------------------------------------------------------------------------------------ driver
-def run_generated_c15(ctx): run(ctx, "c15", [(["encode_msc"], msc_cases, "genmisc-msc", 60)])
+def run_generated_c15(ctx): run(ctx, "c15", [(["encode_msc"], msc_cases, "genmisc-msc", 60), (["encode_mgs"], mgs_cases, "genmisc-mgs", 40)])
 def run_generated_c16(ctx): run(ctx, "c16", [(["encode_mef", "encode_mef_obj"], mef_cases, "genmisc-mef", 40)])
 
 
@@ -189,11 +245,16 @@ def run(ctx, family, groups):
             "coq/theories/PyLin.v, PyRt.v; coqc 8.16.1; vm_compute as evaluator; harness/lpdump.py LP read-back"]})
         compiled = set(); results = {}
         extra_ok = gencheck_enc.prove_extra(ctx, build_dir, "EncCommon.v", [])
+        for h in fam.get("helpers", []):          # the generated wrapper helpers the encoders call (their ties belong to C12)
+            okh, ph = gencheck.translate_and_prove(ctx, h, build_dir, HELPERS[h], compiled) if extra_ok else (False, ["EncCommon.v does not compile"])
+            if ph: ctx.report("generated-model tie of %s (called by the encoders) no longer checks: %s" % (h, ph[0][:300]), {"generated_model": h, "broken": ph}, concrete=False)
         for name in fam["targets"]:
+            if not os.path.exists(os.path.join(common.COQ, "gen_proofs", PROOFS[name])):       # translated and compiled, no script yet
+                results[name] = translate_only(ctx, name, build_dir, compiled); continue
             results[name] = gencheck.translate_and_prove(ctx, name, build_dir, PROOFS[name], compiled) if extra_ok else (False, ["EncCommon.v does not compile"])
         tproblems = []
         if all(results[n_][0] and not results[n_][1] for n_ in results):
-            if not gencheck_enc.prove_extra(ctx, build_dir, fam["transfer"], tproblems):
+            if not all([gencheck_enc.prove_extra(ctx, build_dir, tf, tproblems) for tf in fam["transfer"]]):
                 ctx.report(fam["what"] + " no longer check: " + "; ".join(tproblems)[:400], {"generated_model": "transfer", "broken": tproblems}, concrete=False)
         for names, cases_of, stream, nq in groups:
             cases = cases_of(ctx, ctx.budget(nq, 10 * nq), stream)
@@ -214,6 +275,23 @@ def differs(got, want):
     return gencheck_enc.differs(got, want)
 
 
+def translate_only(ctx, name, build_dir, compiled):
+    """a target without a proof script: translate + compile the generated file (it is used by the correspondence and by callers)"""
+    import subprocess, sys, re
+    gen = os.path.join(build_dir, "Gen_%s.v" % name)
+    p = subprocess.run([sys.executable, os.path.join(common.ROOT, "harness", "translate.py"), name, "--repo", common.REPO, "-o", gen], capture_output=True, text=True)
+    if p.returncode != 0 or not os.path.exists(gen):
+        return False, ["translation step: " + (p.stderr.strip().splitlines() or ["translate.py exit %d" % p.returncode])[-1]]
+    ctx.count("generated_model", "translated")
+    missing = [c for c in re.findall(r"From FPGen Require Gen_(\w+)\.", open(gen).read()) if c not in compiled]
+    if missing: return False, ["the generated model calls %s, whose generated model is not available" % missing]
+    rc, out, log, secs = gencheck.coqc(build_dir, "Gen_%s.v" % name)
+    ctx.count("generated_model", "coqc_s", secs)
+    if rc != 0: return False, ["the generated file Gen_%s.v does not compile: %s" % (name, log[-600:])]
+    compiled.add(name)
+    return True, []
+
+
 def decode(name, enc):
     return gencheck_enc.decode("encode_kfdw" if name in HAS_OBJ else "encode_kfd", enc)
 
@@ -221,6 +299,11 @@ def decode(name, enc):
 def usable(name, case):
     """the MinErrorFlow encoders are called on an object the constructor could build (its own failures are the engine's business)"""
     if case.kind == "msc": return True
+    if case.kind == "mgs":
+        if case.m is None:
+            try: build(case)
+            except Exception: case.m = False
+        return case.m is not False
     if name == "encode_mef_obj" and getattr(case, "drop", False): return False       # _encode_flow raises there: no variables for the objective
     if case.m is None:
         try: build(case)
@@ -239,8 +322,9 @@ def one(ctx, name, build_dir, proved, cases, cases_of, stream):
         ctx.count("generated_model", "property_evaluations")
         ctx.case(["generated-enc", name, c.desc], nontrivial=len(r["rows"]) >= 2 or len(r.get("obj", {})) >= 1)
         ctx.dist("generated:%s:%s" % (name, r["exc"] or "%d+ rows" % (5 * (len(r["rows"]) // 5))))
-        if concrete is None:
-            d = differs(r, spec(name, c))
+        want = spec(name, c)
+        if concrete is None and want is not None:
+            d = differs(r, want)
             if d: concrete = (c.desc, d)
     if model_ok and used:
         header = ["From FP Require Import Lin PathEnc PyRt PyLin.", "From FPGen Require Import Gen_%s." % name]
@@ -264,7 +348,9 @@ def one(ctx, name, build_dir, proved, cases, cases_of, stream):
         for c in cases_of(ctx, ctx.budget(200, 2000), stream + "-search"):
             if not usable(name, c): continue
             ctx.count("generated_model", "search_evaluations")
-            d = differs(real(name, c), spec(name, c))
+            want = spec(name, c)
+            if want is None: continue
+            d = differs(real(name, c), want)
             if d: concrete = (c.desc, d); break
     if concrete is not None:
         desc, d = concrete
@@ -280,11 +366,13 @@ def replay(ctx, body):
     name = body["generated_model"]
     if name not in STATEMENT:
         print("nothing to replay for", name, "; broken:", body.get("broken")); return False
-    cases_of, stream = (msc_cases, "genmisc-msc") if name == "encode_msc" else (mef_cases, "genmisc-mef")
+    cases_of, stream = (msc_cases, "genmisc-msc") if name == "encode_msc" else (mgs_cases, "genmisc-mgs") if name == "encode_mgs" else (mef_cases, "genmisc-mef")
     for sfx, n in (("", 60), ("-search", 200)):
         for c in cases_of(ctx, n, stream + sfx):
             if not usable(name, c): continue
-            d = differs(real(name, c), spec(name, c))
+            want = spec(name, c)
+            if want is None: continue
+            d = differs(real(name, c), want)
             if d:
                 print("statement violated now on", c.desc, ":", d[:2]); return True
     print("the statement holds on the instance stream now")
